@@ -15,41 +15,39 @@ Proof. exact (conj eq_refl eq_refl). Qed.
 
 (* For EVERY byte string in the read buffer and every content of its spare capacity: Decode yields a frame,
    asks for more, or fails - it never panics and its loops end (OutOfFuel is the out-of-bound marker). *)
-Theorem c08_total_bolt : forall v, res (bolt_decode v) <> Panic /\ res (bolt_decode v) <> OutOfFuel.
-Proof. exact bolt_decode_total. Qed.
-Print Assumptions c08_total_bolt.
-Theorem c08_total_boltv2 : forall v, res (boltv2_decode v) <> Panic /\ res (boltv2_decode v) <> OutOfFuel.
-Proof. exact boltv2_decode_total. Qed.
-Print Assumptions c08_total_boltv2.
+Theorem c08_bolt :
+  (* c08_total_bolt *)
+  (forall v, res (bolt_decode v) <> Panic /\ res (bolt_decode v) <> OutOfFuel) /\
+  (* c08_in_bounds_alloc_bounded_bolt *)
+  (forall v,
+  maxrd (tr (bolt_decode v)) <= vlen v /\ Forall (fun a => a <= vlen v) (allocs (tr (bolt_decode v)))) /\
+  (* c08_spare_independent_bolt *)
+  (forall b s1 s2,
+  res (bolt_decode {| vb := b; vspare := s1 |}) = res (bolt_decode {| vb := b; vspare := s2 |})) /\
+  (* c08_consumed_bolt *)
+  (forall v c n, res (bolt_decode v) = Ok (c, n) -> 0 < n /\ n <= vlen v).
+Proof. exact (conj bolt_decode_total (conj bolt_decode_bounded (conj bolt_decode_spare_indep bolt_decode_consumed))). Qed.
+Print Assumptions c08_bolt.
+Theorem c08_boltv2 :
+  (* c08_total_boltv2 *)
+  (forall v, res (boltv2_decode v) <> Panic /\ res (boltv2_decode v) <> OutOfFuel) /\
+  (* c08_in_bounds_alloc_bounded_boltv2 *)
+  (forall v,
+  maxrd (tr (boltv2_decode v)) <= vlen v /\ Forall (fun a => a <= vlen v) (allocs (tr (boltv2_decode v)))) /\
+  (* c08_spare_independent_boltv2 *)
+  (forall b s1 s2,
+  res (boltv2_decode {| vb := b; vspare := s1 |}) = res (boltv2_decode {| vb := b; vspare := s2 |})) /\
+  (* c08_consumed_boltv2 *)
+  (forall v c n, res (boltv2_decode v) = Ok (c, n) -> 0 < n /\ n <= vlen v).
+Proof. exact (conj boltv2_decode_total (conj boltv2_decode_bounded (conj boltv2_decode_spare_indep boltv2_decode_consumed))). Qed.
+Print Assumptions c08_boltv2.
 
 (* every offset read is inside the received bytes; every allocation request is at most the number of
    bytes received (nothing is allocated for an announced length whose bytes have not arrived) *)
-Theorem c08_in_bounds_alloc_bounded_bolt : forall v,
-  maxrd (tr (bolt_decode v)) <= vlen v /\ Forall (fun a => a <= vlen v) (allocs (tr (bolt_decode v))).
-Proof. exact bolt_decode_bounded. Qed.
-Print Assumptions c08_in_bounds_alloc_bounded_bolt.
-Theorem c08_in_bounds_alloc_bounded_boltv2 : forall v,
-  maxrd (tr (boltv2_decode v)) <= vlen v /\ Forall (fun a => a <= vlen v) (allocs (tr (boltv2_decode v))).
-Proof. exact boltv2_decode_bounded. Qed.
-Print Assumptions c08_in_bounds_alloc_bounded_boltv2.
 
 (* the outcome does not depend on the stale bytes behind the received ones *)
-Theorem c08_spare_independent_bolt : forall b s1 s2,
-  res (bolt_decode {| vb := b; vspare := s1 |}) = res (bolt_decode {| vb := b; vspare := s2 |}).
-Proof. exact bolt_decode_spare_indep. Qed.
-Print Assumptions c08_spare_independent_bolt.
-Theorem c08_spare_independent_boltv2 : forall b s1 s2,
-  res (boltv2_decode {| vb := b; vspare := s1 |}) = res (boltv2_decode {| vb := b; vspare := s2 |}).
-Proof. exact boltv2_decode_spare_indep. Qed.
-Print Assumptions c08_spare_independent_boltv2.
 
 (* a frame is returned only when all its bytes have arrived, and it consumes at least one byte *)
-Theorem c08_consumed_bolt : forall v c n, res (bolt_decode v) = Ok (c, n) -> 0 < n /\ n <= vlen v.
-Proof. exact bolt_decode_consumed. Qed.
-Print Assumptions c08_consumed_bolt.
-Theorem c08_consumed_boltv2 : forall v c n, res (boltv2_decode v) = Ok (c, n) -> 0 < n /\ n <= vlen v.
-Proof. exact boltv2_decode_consumed. Qed.
-Print Assumptions c08_consumed_boltv2.
 
 (* the header block decoder used by bolt, boltv2 and the wasm codec, on every block *)
 Theorem c08_total_header_block : forall h,
@@ -58,12 +56,19 @@ Proof. exact hdr_decode_total. Qed.
 Print Assumptions c08_total_header_block.
 
 (* the Dispatch loop around these decoders always ends (stuck = the loop ran out of its bound) *)
-Theorem c08_dispatch_ends_bolt : forall s c, stuck (feed bolt_parse s c) = stuck s.
-Proof. exact (seg_never_stuck bolt_parse bolt_parse_stable). Qed.
-Print Assumptions c08_dispatch_ends_bolt.
-Theorem c08_dispatch_ends_boltv2 : forall s c, stuck (feed boltv2_parse s c) = stuck s.
-Proof. exact (seg_never_stuck boltv2_parse boltv2_parse_stable). Qed.
-Print Assumptions c08_dispatch_ends_boltv2.
+Theorem c08_dispatch_ends :
+  (* c08_dispatch_ends_bolt *)
+  (forall s c, stuck (feed bolt_parse s c) = stuck s) /\
+  (* c08_dispatch_ends_boltv2 *)
+  (forall s c, stuck (feed boltv2_parse s c) = stuck s) /\
+  (* c08_dispatch_ends_dubbo *)
+  (forall hess s c, stuck (feed (dubbo_parse_nz hess) s c) = stuck s) /\
+  (* c08_dispatch_ends_thrift *)
+  (forall tp s c, stuck (feed (thrift_parse tp) s c) = stuck s) /\
+  (* c08_dispatch_ends_tars *)
+  (forall st rp s c, stuck (feed (tars_parse st rp) s c) = stuck s).
+Proof. exact (conj (seg_never_stuck bolt_parse bolt_parse_stable) (conj (seg_never_stuck boltv2_parse boltv2_parse_stable) (conj (fun hess => seg_never_stuck _ (dubbo_parse_nz_stable hess)) (conj (fun tp => seg_never_stuck _ (thrift_parse_stable tp)) (fun st rp => seg_never_stuck _ (tars_parse_stable st rp)))))). Qed.
+Print Assumptions c08_dispatch_ends.
 
 (* non-vacuity: the block on which the unchecked decoder (mosn.io/pkg header.DecodeHeader, used by bolt before the
    repair) panics is an error now; a frame announcing 4 GiB of content allocates nothing *)
@@ -85,64 +90,52 @@ Proof. exact (conj eq_refl (conj eq_refl (conj eq_refl (conj eq_refl eq_refl))))
 
 (* dubbo: decodeFrame computes the frame length as HeaderLen + DataLen in uint32; with 4 GiB or more buffered the
    sum can wrap, hence the bound vlen v < 2^32 (a Go integer width, written into the model) *)
-Theorem c08_total_dubbo : forall hess v, vlen v < U32 ->
-  res (dubbo_decode hess v) <> Panic /\ res (dubbo_decode hess v) <> OutOfFuel.
-Proof. exact dubbo_decode_total. Qed.
-Print Assumptions c08_total_dubbo.
-Theorem c08_in_bounds_alloc_bounded_dubbo : forall hess v,
-  maxrd (tr (dubbo_decode hess v)) <= vlen v /\ Forall (fun a => a <= vlen v) (allocs (tr (dubbo_decode hess v))).
-Proof. exact dubbo_decode_bounded. Qed.
-Print Assumptions c08_in_bounds_alloc_bounded_dubbo.
-Theorem c08_spare_independent_dubbo : forall hess b s1 s2,
-  res (dubbo_decode hess {| vb := b; vspare := s1 |}) = res (dubbo_decode hess {| vb := b; vspare := s2 |}).
-Proof. exact dubbo_decode_spare_indep. Qed.
-Print Assumptions c08_spare_independent_dubbo.
-Theorem c08_consumed_dubbo : forall hess v f n, vlen v < U32 -> res (dubbo_decode hess v) = Ok (f, n) -> 0 < n /\ n <= vlen v.
-Proof. exact dubbo_decode_consumed. Qed.
-Print Assumptions c08_consumed_dubbo.
+Theorem c08_dubbo :
+  (* c08_total_dubbo *)
+  (forall hess v, vlen v < U32 ->
+  res (dubbo_decode hess v) <> Panic /\ res (dubbo_decode hess v) <> OutOfFuel) /\
+  (* c08_in_bounds_alloc_bounded_dubbo *)
+  (forall hess v,
+  maxrd (tr (dubbo_decode hess v)) <= vlen v /\ Forall (fun a => a <= vlen v) (allocs (tr (dubbo_decode hess v)))) /\
+  (* c08_spare_independent_dubbo *)
+  (forall hess b s1 s2,
+  res (dubbo_decode hess {| vb := b; vspare := s1 |}) = res (dubbo_decode hess {| vb := b; vspare := s2 |})) /\
+  (* c08_consumed_dubbo *)
+  (forall hess v f n, vlen v < U32 -> res (dubbo_decode hess v) = Ok (f, n) -> 0 < n /\ n <= vlen v).
+Proof. exact (conj dubbo_decode_total (conj dubbo_decode_bounded (conj dubbo_decode_spare_indep dubbo_decode_consumed))). Qed.
+Print Assumptions c08_dubbo.
 
 (* dubbo-thrift: decodeFrame runs under its own recover(); a slice expression that would panic is the error
    ERR_RECOVERED, so the decoder as a whole never panics *)
-Theorem c08_total_thrift : forall tp v, res (thrift_decode tp v) <> Panic /\ res (thrift_decode tp v) <> OutOfFuel.
-Proof. exact thrift_decode_total. Qed.
-Print Assumptions c08_total_thrift.
-Theorem c08_in_bounds_alloc_bounded_thrift : forall tp v,
-  maxrd (tr (thrift_decode tp v)) <= vlen v /\ Forall (fun a => a <= vlen v) (allocs (tr (thrift_decode tp v))).
-Proof. exact thrift_decode_bounded. Qed.
-Print Assumptions c08_in_bounds_alloc_bounded_thrift.
-Theorem c08_spare_independent_thrift : forall tp b s1 s2,
-  res (thrift_decode tp {| vb := b; vspare := s1 |}) = res (thrift_decode tp {| vb := b; vspare := s2 |}).
-Proof. exact thrift_decode_spare_indep. Qed.
-Print Assumptions c08_spare_independent_thrift.
-Theorem c08_consumed_thrift : forall tp v f n, res (thrift_decode tp v) = Ok (f, n) -> 0 < n /\ n <= vlen v.
-Proof. exact thrift_decode_consumed. Qed.
-Print Assumptions c08_consumed_thrift.
+Theorem c08_thrift :
+  (* c08_total_thrift *)
+  (forall tp v, res (thrift_decode tp v) <> Panic /\ res (thrift_decode tp v) <> OutOfFuel) /\
+  (* c08_in_bounds_alloc_bounded_thrift *)
+  (forall tp v,
+  maxrd (tr (thrift_decode tp v)) <= vlen v /\ Forall (fun a => a <= vlen v) (allocs (tr (thrift_decode tp v)))) /\
+  (* c08_spare_independent_thrift *)
+  (forall tp b s1 s2,
+  res (thrift_decode tp {| vb := b; vspare := s1 |}) = res (thrift_decode tp {| vb := b; vspare := s2 |})) /\
+  (* c08_consumed_thrift *)
+  (forall tp v f n, res (thrift_decode tp v) = Ok (f, n) -> 0 < n /\ n <= vlen v).
+Proof. exact (conj thrift_decode_total (conj thrift_decode_bounded (conj thrift_decode_spare_indep thrift_decode_consumed))). Qed.
+Print Assumptions c08_thrift.
 
-Theorem c08_total_tars : forall st rp v, res (tars_decode st rp v) <> Panic /\ res (tars_decode st rp v) <> OutOfFuel.
-Proof. exact tars_decode_total. Qed.
-Print Assumptions c08_total_tars.
-Theorem c08_in_bounds_alloc_bounded_tars : forall st rp v,
-  maxrd (tr (tars_decode st rp v)) <= vlen v /\ Forall (fun a => a <= vlen v) (allocs (tr (tars_decode st rp v))).
-Proof. exact tars_decode_bounded. Qed.
-Print Assumptions c08_in_bounds_alloc_bounded_tars.
-Theorem c08_spare_independent_tars : forall st rp b s1 s2,
-  res (tars_decode st rp {| vb := b; vspare := s1 |}) = res (tars_decode st rp {| vb := b; vspare := s2 |}).
-Proof. exact tars_decode_spare_indep. Qed.
-Print Assumptions c08_spare_independent_tars.
-Theorem c08_consumed_tars : forall st rp v f n, res (tars_decode st rp v) = Ok (f, n) -> 0 < n /\ n <= vlen v.
-Proof. exact tars_decode_consumed. Qed.
-Print Assumptions c08_consumed_tars.
+Theorem c08_tars :
+  (* c08_total_tars *)
+  (forall st rp v, res (tars_decode st rp v) <> Panic /\ res (tars_decode st rp v) <> OutOfFuel) /\
+  (* c08_in_bounds_alloc_bounded_tars *)
+  (forall st rp v,
+  maxrd (tr (tars_decode st rp v)) <= vlen v /\ Forall (fun a => a <= vlen v) (allocs (tr (tars_decode st rp v)))) /\
+  (* c08_spare_independent_tars *)
+  (forall st rp b s1 s2,
+  res (tars_decode st rp {| vb := b; vspare := s1 |}) = res (tars_decode st rp {| vb := b; vspare := s2 |})) /\
+  (* c08_consumed_tars *)
+  (forall st rp v f n, res (tars_decode st rp v) = Ok (f, n) -> 0 < n /\ n <= vlen v).
+Proof. exact (conj tars_decode_total (conj tars_decode_bounded (conj tars_decode_spare_indep tars_decode_consumed))). Qed.
+Print Assumptions c08_tars.
 
 (* the Dispatch loop around them ends *)
-Theorem c08_dispatch_ends_dubbo : forall hess s c, stuck (feed (dubbo_parse_nz hess) s c) = stuck s.
-Proof. exact (fun hess => seg_never_stuck _ (dubbo_parse_nz_stable hess)). Qed.
-Print Assumptions c08_dispatch_ends_dubbo.
-Theorem c08_dispatch_ends_thrift : forall tp s c, stuck (feed (thrift_parse tp) s c) = stuck s.
-Proof. exact (fun tp => seg_never_stuck _ (thrift_parse_stable tp)). Qed.
-Print Assumptions c08_dispatch_ends_thrift.
-Theorem c08_dispatch_ends_tars : forall st rp s c, stuck (feed (tars_parse st rp) s c) = stuck s.
-Proof. exact (fun st rp => seg_never_stuck _ (tars_parse_stable st rp)). Qed.
-Print Assumptions c08_dispatch_ends_tars.
 
 (* non-vacuity: a dubbo header announcing 0xFFFFFFF5 payload bytes (the uint32 sum with the header length wraps
    to 5) asks for more data and allocates nothing; a dubbo-thrift "frame" of 4+1 bytes in front of more data is
